@@ -62,5 +62,14 @@ Theorem C15_best_std_argmax :
     (forall s' c', In (s', c') post -> (c' < snd (best_std counts))%Z).
 Proof. exact best_std_argmax. Qed.
 
+(* a count query that hangs, fails or prints no count yields no cursor: without a count to stay within, no range is
+   requested; a reported count n > 0 yields the cursor (0, n, n), whose first request is 1..n *)
+Theorem C15_no_count_no_cursor :
+  cbs_new QTimeout = None /\ cbs_new QError = None /\ cbs_new QNoCount = None /\ cbs_new (QCount 0) = None /\
+  forall n, (0 < n)%Z -> cbs_new (QCount n) = Some (0, n, n)%Z.
+Proof.
+  repeat split. intros n H. unfold cbs_new, query_count. destruct (Z.eqb_spec n 0); [lia|reflexivity].
+Qed.
+
 Example C15_example : best_std [(0, 3%Z); (1, 5%Z); (2, 0%Z); (3, 5%Z); (4, 4%Z); (5, 0%Z)] = (Some 3, 5%Z).
 Proof. vm_compute. reflexivity. Qed.
